@@ -457,3 +457,76 @@ def infeasible_edges(cfg, func, avoid_edges=(), start=None):
         elif val is False:
             out.add((t, "true"))
     return out
+
+
+# ---------------------------------------------------------------------------
+# forwarding completeness: every parameter of an API forwarding function is used on every path
+
+# (module, qualname) -> {parameter: reason it may stay unused on some path}
+FORWARDERS = {
+    ("_action", "start_action"): {},
+    ("_action", "startTask"): {},
+    ("_action", "Action.child"): {},
+    ("_action", "Action.continue_task"): {"task_id": "tested against the not-supplied sentinel first", "cls": "classmethod receiver"},
+    ("_action", "Action.__init__"): {},
+    ("_action", "Action.run"): {},
+    ("_action", "Action.finish"): {"exception": "the already-finished early return ignores it (C03.truthful covers its use)"},
+    ("_action", "Action.log"): {},
+    ("_action", "log_message"): {},
+    ("_validation", "ActionType.__call__"): {},
+    ("_validation", "ActionType.as_task"): {},
+    ("_validation", "MessageType.log"): {},
+    ("_validation", "MessageType.__call__"): {},
+    ("_message", "Message.write"): {"logger": "documented: not used when an action is given"},
+    ("_message", "Message.__init__"): {},
+    ("_output", "to_file"): {},
+    ("_output", "Logger.write"): {},
+    ("_output", "MemoryLogger.write"): {},
+    ("_output", "Destinations.send"): {"logger": "only used when a delivery failed (report)"},
+    ("_output", "Destinations.add"): {},
+    ("_output", "Destinations.remove"): {},
+    ("_output", "FileDestination.__call__"): {},
+    ("_traceback", "write_traceback"): {},
+    ("_traceback", "_writeTracebackMessage"): {},
+    ("_traceback", "writeFailure"): {},
+}
+
+
+def rule_forwarding(chk, prefix, keys=None):
+    """On every path from entry to a normal return, every parameter is referenced (directly
+    or by a closure defined on that path): an argument silently dropped on one arm is how a
+    typed action becomes untyped, a report loses its logger, a json_default is ignored."""
+    ctx = chk.ctx
+    n = 0
+    for (mod, qual), allowed in sorted(FORWARDERS.items()):
+        if keys is not None and (mod, qual) not in keys:
+            continue
+        f = ctx.func(mod, qual)
+        cfg = ctx.cfg(f)
+        n += 1
+        params = [p for p in f.params if p not in ("self",) and p not in allowed]
+        missing = []
+        for pn in params:
+            users = []
+            for nd in cfg.live:
+                names = set()
+                for e in nd.exprs:
+                    for x in ast.walk(e):
+                        if isinstance(x, ast.Name) and x.id == pn:
+                            names.add(pn)
+                if nd.kind == "def" and any(isinstance(x, ast.Name) and x.id == pn for x in ast.walk(nd.ast)):
+                    names.add(pn)
+                if nd.kind in ("with_enter",) and any(isinstance(x, ast.Name) and x.id == pn for x in ast.walk(nd.info["item"].context_expr)):
+                    names.add(pn)
+                if nd.kind == "for_iter" and any(isinstance(x, ast.Name) and x.id == pn for x in ast.walk(nd.ast.iter)):
+                    names.add(pn)
+                if names:
+                    users.append(nd)
+            ok, wit = cfg.must_pass([cfg.entry], [cfg.exit], users, skip_labels=())
+            if not ok:
+                # a path that raises on purpose (argument check) does not count: only normal returns do
+                missing.append((pn, cfg.fmt_path(wit)))
+        chk.req(not missing, "%s.forward" % prefix, "%s:every-parameter-used-on-every-path" % f.fq, chk.where(f),
+                good="parameters %s are all referenced on every path to a normal return" % params,
+                fail=lambda: "; ".join("parameter %r is dropped on the path %s" % (pn, w[:300]) for pn, w in missing), sites=len(params))
+    return n
